@@ -13,5 +13,5 @@ def run(ctx):
         extra = c05pb.extra
     except ImportError:
         pass
-    netprop.run_property(ctx, "C05", ["refuse", "capacity", "refuse", "mixed"], 1500 if t else 150, 30 if t else 24,
-                         scenarios=scen.refusals() + scen.capacity() + scen.register_limit() + scen.big_merge(), own_props=["C05"], extra=extra)
+    netprop.run_property(ctx, "C05", ["refuse", "capacity", "refuse", "mixed", "registers"], 1500 if t else 150, 30 if t else 24,
+                         scenarios=scen.refusals() + scen.capacity() + scen.register_limit() + scen.big_merge() + scen.register_api(), own_props=["C05"], extra=extra)
